@@ -313,7 +313,8 @@ def r10d_mark_before_analyse(ctx):
     crate = ctx.bin
     entry = db.analysis_entry()
     n = 0
-    for op in db.ops_by_map.get("plugin_fixture_files", []):
+    marks = db.maps_where(lambda k, v: k == "std::path::PathBuf" and v == "()")  # the set of plugin files
+    for op in (db.ops_by_map.get(marks[0], []) if len(marks) == 1 else []):
         if op.method != "insert":
             continue
         f = op.fn
